@@ -75,6 +75,10 @@ def run_op(tbl, op, arg, variant):
             keyval = {'const': 'K', 'name': '\\g<0>', 'group': '\\1'}[e['key']]
             uf.append(dict(name=name, keys=dict(k=keyval)))
         links = [src, DF.unpivot(uf, [dict(name='k', type='string')], dict(name='v', type='integer'), regex=regex)]
+    if variant.get('preused'):
+        from ..common import preuse
+        preuse(links[1:], lambda: tuple_source(([('t0', [(f, 'integer') for f in FIELDS], real_rows(tbl))] if twin else []) +
+                                               [('t', [(f, 'integer') for f in FIELDS], real_rows(tbl))]))
     with contextlib.redirect_stdout(io.StringIO()):
         ds = Flow(*links).datastream()
         streams = [[dict(r) for r in res] for res in ds.res_iter]
@@ -153,7 +157,7 @@ def run():
     setup_repo()
     r = rng(PROP)
     cases = model(rep, t)
-    items = [dict(case=c, variant=dict(merged=r.random() < 0.5, twice=r.random() < 0.5, noregex=r.random() < 0.5, twin=r.random() < 0.35)) for c in cases]
+    items = [dict(case=c, variant=dict(merged=r.random() < 0.5, twice=r.random() < 0.5, noregex=r.random() < 0.5, twin=r.random() < 0.35, preused=r.random() < 0.3)) for c in cases]
     res = pmap(replay_case, items, chunksize=32)
     errs = harness_errors(res)
     if errs:
